@@ -369,6 +369,7 @@ func (t *SymTab) DomSym(v uint32) string {
 	}
 	return fmt.Sprintf("?%d", v)
 }
+
 // Nonces: abstract nonce i stands for base+i, piecewise: 0..999 plain, 1000..1999 shifted by 2^33,
 // 2000..2999 shifted by 2^63 -- so that keys which agree after a truncation to 32 or 63 bits are DIFFERENT
 // abstract nonces -- and 3000..3999 is the absolute range 2^32-500 .. 2^32+499, contiguous across the 32-bit
